@@ -110,7 +110,7 @@ Theorem band_backsolve_backward_error_lemma (au : matrix AR) (mm n : nat) (y x :
       Rsum (bwin mm n i) (fun k => (mat_at (A := AR) au mm i k + dU i k) * nth (i + k) x 0) = nth i y 0.
 Proof using u_range fsub_ok fmul_ok fdiv_ok.
   intros Hc Hmm Ly Hu Dg E.
-  destruct (band_back_trace (A := AR) au mm n y x lf Hc Hmm Ly E) as (Lx & Tr). split; [exact Lx|].
+  destruct (band_back_trace_lemma (A := AR) au mm n y x lf Hc Hmm Ly E) as (Lx & Tr). split; [exact Lx|].
   destruct (fin_choice (fun _ : nat => 0)
               (fun i (d : nat -> R) =>
                  (forall k, (k < bwin mm n i)%nat -> Rabs (d k) <= gam (bwin mm n i) * Rabs (mat_at (A := AR) au mm i k)) /\
@@ -195,7 +195,7 @@ Theorem band_forward_backward_error_lemma (al : matrix AR) (index : list nat) (n
        = nth (fperm index n r) b 0).
 Proof using u_range fsub_ok fmul_ok.
   intros Hc Hm Lb Hix E.
-  destruct (band_fwd_trace (A := AR) al index n m1 b y lf Hc Hm Lb Hix E) as (Ly & Tr). split; [exact Ly|].
+  destruct (band_fwd_trace_lemma (A := AR) al index n m1 b y lf Hc Hm Lb Hix E) as (Ly & Tr). split; [exact Ly|].
   intros r Hr. cbn zeta. split; [exact (fhist_final_length (A := AR) n m1 al index r Hix Hr)|]. split.
   - intros t Ht. apply (fhist_final_tags (A := AR) n m1 al index r); [exact Hix|exact Hr|]. now apply nth_In.
   - intros Hu. apply fwd_row; [exact (Tr r)|exact Hu].
@@ -222,7 +222,7 @@ Theorem band_forward_noswap_backward_error_lemma (al : matrix AR) (index : list 
 Proof using u_range fsub_ok fmul_ok.
   intros Hc Hm Lb Hu Hix E.
   assert (Hix' : forall k, (k < n)%nat -> (k + 1 <= nth k index 0%nat)%nat) by (intros k Hk; rewrite Hix by exact Hk; lia).
-  destruct (band_fwd_trace (A := AR) al index n m1 b y lf Hc Hm Lb Hix' E) as (Ly & Tr). split; [exact Ly|].
+  destruct (band_fwd_trace_lemma (A := AR) al index n m1 b y lf Hc Hm Lb Hix' E) as (Ly & Tr). split; [exact Ly|].
   intros r Hr. specialize (Tr r).
   rewrite (fperm_noswap index n n r Hix (le_n n)) in Tr.
   rewrite (fhist_noswap (A := AR) n m1 al index r Hix Hr) in Tr.
